@@ -357,14 +357,14 @@ theorem frame_beatgrid (ops : TracksV2.FOps) (g : List TracksV2.GMarker)
   · rw [ht]
     simp only [payloadBeat, beat_enc_eq, List.append_assoc]
 
-/-! ### setters that DROP bytes (not in the list of C04's read-modify-write setters)
+/-! ### the two whole-list setters of the loops / overview-waveform columns
 
-`set_loops` and `set_waveform` do not read the stored blob: they build a new one
-whose `extra_data` is empty, so any trailing bytes of the old blob are lost. -/
+Since the repair (`fix:` bee2c23) `set_loops` and `set_waveform` are read-modify-write
+like the others: the loop list / the waveform fields are replaced, the trailing
+`extra_data` of the stored blob is kept. -/
 
-theorem loops_setter_drops_extra (ops : TracksV2.FOps) (v : List (Option TracksV2.LoopV))
-    (r r' : TracksV2.Row) (h : TracksV2.applySetter ops (.loops v) r = .ok r') :
-    r'.loops.2 = [] := by
+theorem loops_ok {ops v r r'} (h : TracksV2.applySetter ops (.loops v) r = .ok r') :
+    ∃ ls, TracksV2.writeLoops v = .ok ls ∧ r' = { r with loops := (ls, r.loops.2) } := by
   simp only [TracksV2.applySetter] at h
   cases hw : TracksV2.writeLoops v with
   | throw e => rw [hw] at h; simp [Res.bind] at h
@@ -374,12 +374,12 @@ theorem loops_setter_drops_extra (ops : TracksV2.FOps) (v : List (Option TracksV
     simp only [TracksV2.putLoops] at h
     by_cases he : TracksV2.loopsEncodable ls = true
     · simp only [he, if_true, Res.bind, Res.ok.injEq] at h
-      rw [← h]
+      exact ⟨ls, rfl, h.symm⟩
     · simp [he, Res.bind] at h
 
-theorem waveform_setter_drops_extra (ops : TracksV2.FOps) (w : List TracksV2.WEntry)
-    (r r' : TracksV2.Row) (h : TracksV2.applySetter ops (.waveform w) r = .ok r') :
-    r'.ovw.2 = [] := by
+theorem waveform_ok {ops w r r'} (h : TracksV2.applySetter ops (.waveform w) r = .ok r') :
+    ∃ o, TracksV2.writeWaveform ops w (TracksV2.getSampleCount r) (TracksV2.getSampleRate r) = .ok o ∧
+      r' = { r with ovw := (o, r.ovw.2) } := by
   simp only [TracksV2.applySetter] at h
   cases hw : TracksV2.writeWaveform ops w (TracksV2.getSampleCount r) (TracksV2.getSampleRate r) with
   | throw e => rw [hw] at h; simp [Res.bind] at h
@@ -387,7 +387,32 @@ theorem waveform_setter_drops_extra (ops : TracksV2.FOps) (w : List TracksV2.WEn
   | ok o =>
     rw [hw] at h
     simp only [Res.bind, Res.ok.injEq] at h
-    rw [← h]
+    exact ⟨o, rfl, h.symm⟩
+
+/-- `set_loops(v)`: the stored loops payload is the encoding of the old list followed by the
+trailing bytes; afterwards it is the encoding of the new (padded) list followed by the *same*
+trailing bytes; no other column is touched. -/
+theorem frame_loops (ops : TracksV2.FOps) (v : List (Option TracksV2.LoopV))
+    (r r' : TracksV2.Row) (h : TracksV2.applySetter ops (.loops v) r = .ok r') :
+    payloadTrack r' = payloadTrack r ∧ payloadOvw r' = payloadOvw r ∧
+    payloadBeat r' = payloadBeat r ∧ payloadCues r' = payloadCues r ∧
+    ∃ ls, TracksV2.writeLoops v = .ok ls ∧
+      payloadLoops r = V2.loops.enc r.loops.1 ++ r.loops.2 ∧
+      payloadLoops r' = V2.loops.enc ls ++ r.loops.2 := by
+  obtain ⟨ls, hw, rfl⟩ := loops_ok h
+  exact ⟨rfl, rfl, rfl, rfl, ls, hw, rfl, rfl⟩
+
+/-- `set_waveform(w)`: only the samples-per-entry / points / maximum fields of the overview
+waveform blob are replaced; the trailing bytes are the old ones; no other column is touched. -/
+theorem frame_waveform (ops : TracksV2.FOps) (w : List TracksV2.WEntry)
+    (r r' : TracksV2.Row) (h : TracksV2.applySetter ops (.waveform w) r = .ok r') :
+    payloadTrack r' = payloadTrack r ∧ payloadBeat r' = payloadBeat r ∧
+    payloadCues r' = payloadCues r ∧ payloadLoops r' = payloadLoops r ∧
+    ∃ o, TracksV2.writeWaveform ops w (TracksV2.getSampleCount r) (TracksV2.getSampleRate r) = .ok o ∧
+      payloadOvw r = V2.ovw.enc r.ovw.1 ++ r.ovw.2 ∧
+      payloadOvw r' = V2.ovw.enc o ++ r.ovw.2 := by
+  obtain ⟨o, hw, rfl⟩ := waveform_ok h
+  exact ⟨rfl, rfl, rfl, rfl, o, hw, rfl, rfl⟩
 
 /-! ### a concrete foreign-looking row: every hypothesis above is satisfiable -/
 
@@ -470,33 +495,35 @@ example : ∀ r', TracksV2.applySetter ops0 (.hotCueAt 0 (some cue0)) row0 = .ok
   exact ⟨by decide, by decide⟩
 
 /-- `set_loops(get_loops())` on a row whose loops blob has eight well-formed
-entries followed by one foreign byte: the call succeeds and the byte is gone. -/
+entries followed by one foreign byte: the call succeeds and the stored payload,
+foreign byte included, is exactly what it was (before the repair the byte was
+dropped — the former `loops_setter_counterexample`). -/
 def rowL : TracksV2.Row :=
   { row0 with loops := ([⟨[0x4c], 0x40f0000000000000, 0x40f8000000000000, 1, 1, ⟨0xff, 0x10, 0x20, 0x30⟩⟩,
       TracksV2.emptyLoop, TracksV2.emptyLoop, TracksV2.emptyLoop, TracksV2.emptyLoop, TracksV2.emptyLoop,
       TracksV2.emptyLoop, TracksV2.emptyLoop], [0xcc]) }
 
-theorem ne_of_eq_append_singleton {p q : Bytes} {x : UInt8} (h : p = q ++ [x]) : q ≠ p := by
-  intro e
-  have := congrArg List.length h
-  rw [e] at this
-  simp at this
-
 set_option maxRecDepth 4096 in
-theorem loops_setter_counterexample :
+theorem loops_setter_keeps_extra_example :
     ∃ r', TracksV2.applySetter ops0 (.loops (TracksV2.getLoops rowL)) rowL = .ok r' ∧
-      payloadLoops rowL = payloadLoops r' ++ [0xcc] ∧ payloadLoops r' ≠ payloadLoops rowL :=
-  by
-    refine ⟨_, rfl, ?_, ?_⟩
-    · decide
-    · exact ne_of_eq_append_singleton (x := 0xcc) (by decide)
+      payloadLoops r' = payloadLoops rowL ∧ (payloadLoops r').getLast? = some 0xcc := by
+  refine ⟨_, rfl, ?_, ?_⟩
+  · decide
+  · decide
+
+/-- a different list on the same row: the payload changes, the foreign byte stays -/
+example : ∃ r', TracksV2.applySetter ops0 (.loops [none, some loop0]) rowL = .ok r' ∧
+    payloadLoops r' ≠ payloadLoops rowL ∧ r'.loops.2 = [0xcc] := ⟨_, rfl, by decide, rfl⟩
 
 /-- `set_waveform(get_waveform())` on the concrete row (empty waveform, one
-foreign trailing byte in the overview blob): the byte is gone. -/
-theorem waveform_setter_counterexample :
+foreign trailing byte in the overview blob): the byte is kept. -/
+theorem waveform_setter_keeps_extra_example :
     ∃ r', TracksV2.applySetter ops0 (.waveform (TracksV2.getWaveform row0)) row0 = .ok r' ∧
-      payloadOvw row0 = payloadOvw r' ++ [0x09] ∧ payloadOvw r' ≠ payloadOvw row0 :=
-  ⟨_, rfl, rfl, ne_of_eq_append_singleton (x := 0x09) rfl⟩
+      payloadOvw r' = payloadOvw row0 ∧ (payloadOvw r').getLast? = some 0x09 :=
+  ⟨_, rfl, rfl, rfl⟩
+
+example := frame_loops ops0 [none, some loop0] rowL _ rfl
+example := frame_waveform ops0 [] row0 _ rfl
 
 end SetterFrame
 end EngineModel
